@@ -121,7 +121,7 @@ def _standins(vc):
               "4-bus network with line conductances, transformers with iron losses (MATPOWER file) and cost data (RATE_A = 0): bus voltages and "
               "slack power of the round trip network",
         script="import sys\nfrom replaylib.ppcroundtrip import main, main_costs, main_more\n"
-               "for f in (main, main_costs, main_more):\n    try:\n        f()\n    except SystemExit as e:\n        if e.code:\n            raise\n",
+               "from replaylib import run_all\nrun_all(main, main_costs, main_more)\n",
         timeout=900))
 
 
